@@ -103,6 +103,7 @@ type Profile struct {
 	RelURLs       bool // all reference forms (otherwise root-relative only)
 	MediaInText   bool // media inside paragraphs / list items
 	NeverRendered bool // <template>, <noembed>, <noframes> with text
+	H1Fallback    bool // the page opens with an <h1> that holds a <noscript> image fallback (the title falls back to it when <title> is short)
 	OddSpaces     bool // words separated by no-break and other non-ASCII spaces
 	Glue          bool // words that continue across inline element, <wbr> and comment boundaries
 	MXSS          bool // inert text that serialise+parse can turn into live markup (foreign content)
@@ -372,6 +373,9 @@ func (g *ArtGen) ref(carrier, attr, where, ext string, forms []string) string {
 	case "pad-path": // white space around the value (HTML strips it from URL attributes)
 		raw = "  rel/" + id + ext + " "
 		exp = origin + dir + "rel/" + id + ext
+	case "pad-frag": // a fragment-only reference with white space in front of it is still fragment-only
+		raw = []string{" ", "\n", "\t "}[g.r.Intn(3)] + "#" + id
+		exp = "#" + id
 	case "pad-root":
 		raw = "\n\t/root/" + id + ext + "\n"
 		exp = origin + "/root/" + id + ext
@@ -385,7 +389,7 @@ func (g *ArtGen) ref(carrier, attr, where, ext string, forms []string) string {
 	return raw
 }
 
-var linkForms = []string{"path", "dot", "dotdot", "root", "scheme", "query", "abs", "frag", "data", "bad", "js", "path", "root", "embedded", "proxy", "comma", "pad-path", "pad-root", "js-case", "data-case", "enc-slash", "enc-query", "nfd"}
+var linkForms = []string{"path", "dot", "dotdot", "root", "scheme", "query", "abs", "frag", "data", "bad", "js", "path", "root", "embedded", "proxy", "comma", "pad-path", "pad-root", "js-case", "data-case", "enc-slash", "enc-query", "nfd", "pad-frag"}
 var mediaForms = []string{"path", "dot", "dotdot", "root", "scheme", "abs", "path", "root", "query", "embedded", "proxy", "comma", "pad-path", "pad-root", "enc-slash", "enc-query", "nfd", "utf8-path"}
 var srcsetForms = []string{"path", "dot", "dotdot", "root", "scheme", "abs", "comma", "proxy", "utf8-path"}
 
@@ -591,6 +595,15 @@ func (g *ArtGen) img(where string) string {
 			g.L.RefSeq = append(g.L.RefSeq, id)
 			return `<img data-original="` + b + `" data-src="` + a + `"` + g.noise() + `>`
 		}
+		if where != "table" && g.r.Chance(1, 3) { // (a table is copied as it is: its images keep the src they have)
+			// a placeholder in src and the real address in a lazy attribute: the lazy value replaces the placeholder
+			a := g.ref("img", "src", where, ".png", mediaForms)
+			id := g.lastRefID()
+			b := g.ref("img", "src", where, ".png", mediaForms)
+			g.L.Refs[g.lastRefID()].Expect = "\x00shadowed"
+			g.L.RefSeq = append(g.L.RefSeq, id)
+			return `<img src="` + b + `" ` + []string{"data-src", "data-original", "data-url"}[g.r.Intn(3)] + `="` + a + `"` + g.noise() + `>`
+		}
 		s := `<img data-src="` + g.ref("img", "src", where, ".png", mediaForms) + `"` + g.noise() + `>`
 		return s
 	case 1: // srcset
@@ -598,6 +611,21 @@ func (g *ArtGen) img(where string) string {
 		id := g.lastRefID()
 		n := 1 + g.r.Intn(3)
 		var cands []string
+		if g.r.Chance(1, 4) {
+			// sizes of one picture, big to small: the smaller one lives where the address of the bigger one
+			// ends (/big/<id>/root/<id'>.png, /root/<id'>.png), so one candidate is part of the text of another
+			g.nref += 2
+			big, small := fmt.Sprintf("u%dz", g.nref-1), fmt.Sprintf("u%dz", g.nref)
+			origin, _, _ := splitPage(g.P.PageURL)
+			rawSmall := "/root/" + small + ".png"
+			rawBig := "/big/" + big + rawSmall
+			for _, x := range [][2]string{{big, rawBig}, {small, rawSmall}} {
+				g.L.Refs[x[0]] = &RefInfo{ID: x[0], Raw: x[1], Expect: origin + x[1], Form: "nested", Carrier: "img", Where: where, Attr: "srcset"}
+				g.L.RefSeq = append(g.L.RefSeq, x[0])
+			}
+			cands = append(cands, rawBig+" 2x", rawSmall+" 1x")
+			n = 0
+		}
 		for i := 0; i < n; i++ {
 			cands = append(cands, g.ref("img", "srcset", where, ".png", srcsetForms)+[]string{fmt.Sprintf(" %dx", i+1), fmt.Sprintf(" %d00w", i+1), " 1.5x", " 1e0x", " 100w 50h", ""}[g.r.Intn(6)])
 		}
@@ -720,6 +748,10 @@ func (g *ArtGen) media(inText bool) {
 		g.w(`</p>`)
 		if g.P.Hidden && g.r.Chance(1, 2) {
 			g.w(`<script>` + g.toksK(2, KHidden, "script") + `</script><style>` + g.toksK(1, KHidden, "style") + `</style>`)
+		}
+		if g.P.AttrNoise && g.r.Chance(1, 2) {
+			// a box of the quote with attributes of its own (a div: the element kind the distiller uses for its wrapper)
+			g.w(`<div` + g.noise() + `>` + g.toksK(2, KPlaceholder, "tweet") + `</div>`)
 		}
 		g.w(`&mdash; ` + g.toksK(1, KPlaceholder, "tweet") + ` <a href="https://twitter.com/user/status/` + id + `"` + g.noise() + `>` + g.toksK(1, KPlaceholder, "tweet") + `</a></blockquote>` + "\n")
 	}
@@ -899,6 +931,15 @@ func (g *ArtGen) carrier() {
 // ---------------------------------------------------------------------------
 // tables
 
+// tabClass: class / id names that table generators give rows and cells (pandoc writes
+// <tr class="header">), which read like names of page chrome. Inside a table they mean nothing.
+func (g *ArtGen) tabClass() string {
+	if !g.r.Chance(1, 3) {
+		return ""
+	}
+	return []string{` class="header"`, ` class="footer"`, ` class="remark"`, ` class="extra"`, ` id="menu-col"`, ` class="odd sidebar-col"`, ` class="comment"`, ` id="footnote-row"`}[g.r.Intn(8)]
+}
+
 func (g *ArtGen) dataTable() {
 	g.L.Kinds["datatable"]++
 	tid := len(g.L.Tables)
@@ -919,7 +960,7 @@ func (g *ArtGen) dataTable() {
 	if useThead {
 		g.w("<thead>")
 	}
-	g.w("<tr" + g.noise() + ">")
+	g.w("<tr" + g.tabClass() + g.noise() + ">")
 	var hdr [][]int
 	for c := 0; c < cols; c++ {
 		a := len(g.L.Toks)
@@ -936,7 +977,7 @@ func (g *ArtGen) dataTable() {
 		if g.r.Chance(1, 8) {
 			ah = ` aria-hidden="false"`
 		}
-		g.w("<tr" + ah + g.noise() + ">")
+		g.w("<tr" + ah + g.tabClass() + g.noise() + ">")
 		var row [][]int
 		for c := 0; c < cols; c++ {
 			a := len(g.L.Toks)
@@ -944,7 +985,7 @@ func (g *ArtGen) dataTable() {
 			if g.r.Chance(1, 12) {
 				ah = ` aria-hidden="false"`
 			}
-			g.w("<td" + ah + g.noise() + ">")
+			g.w("<td" + ah + g.tabClass() + g.noise() + ">")
 			switch g.r.Intn(12) {
 			case 0:
 				g.w(g.toks(1) + ` <a href="` + g.ref("a", "href", "table", ".html", linkForms) + `"` + g.noise() + `>` + g.toks(1) + `</a>`)
@@ -1137,7 +1178,10 @@ func (g *ArtGen) block() {
 			// elements whose display is not what their tag suggests
 			g.L.Kinds["styled-wrapper"]++
 			n := 15 + g.r.Intn(40)
-			switch g.r.Intn(11) {
+			switch g.r.Intn(12) {
+			case 11: // blocks that consist of one inline element with an inline-level display of its own, stacked without white space
+				d := []string{"inline-block", "inline-flex", "inline-grid", "inline-table", "inline"}[g.r.Intn(5)]
+				g.w(`<div><span style="display:` + d + `">` + g.toks(n) + `</span></div><div><span style="display:` + d + `">` + g.toks(8) + `</span></div><div><b style="display: ` + d + `">` + g.toks(5) + `</b></div>` + "\n")
 			case 8: // inline elements displayed as blocks (of any kind), written without white space between them
 				d := []string{"block", "flex", "grid", "table", "list-item", "flow-root"}[g.r.Intn(6)]
 				g.w(`<div><span style="display:` + d + `">` + g.toks(n) + `</span><span style="display:` + d + `">` + g.toks(8) + `</span><b style="display: flex">` + g.toks(5) + `</b></div>` + "\n")
@@ -1191,6 +1235,19 @@ func (g *ArtGen) block() {
 		}},
 		{2, p.Pre, func() {
 			g.L.Kinds["pre"]++
+			if g.r.Chance(1, 3) {
+				// a highlighted listing: every token of a line sits in an inline element with attributes of its own
+				g.w("<pre" + g.nestNoise() + "><code" + g.noise() + ">")
+				for ln := 0; ln < 2+g.r.Intn(3); ln++ {
+					for k := 0; k < 1+g.r.Intn(5); k++ {
+						t := []string{"span", "b", "i", "em", "a", "code", "kbd"}[g.r.Intn(7)]
+						g.w("<" + t + g.noise() + ">" + g.toks(1) + "</" + t + "> ")
+					}
+					g.w("\n  ")
+				}
+				g.w("</code></pre>\n")
+				return
+			}
 			g.w("<pre" + g.nestNoise() + ">" + g.toks(3+g.r.Intn(15)) + "\n  " + g.toks(2+g.r.Intn(15)) + "</pre>\n")
 		}},
 		{4, p.Images || p.Figures || p.Videos || p.Embeds || p.Twitter, func() { g.media(false) }},
@@ -1260,6 +1317,9 @@ func (g *ArtGen) Doc() string {
 		g.pop()
 	}
 	g.w("</head><body" + g.noise() + ">\n<div" + g.noise() + ">\n")
+	if g.P.H1Fallback {
+		g.w(`<h1` + g.noise() + `><img class="lazy" data-src="/logo.png" alt=""><noscript><img src="/logo.png" alt=""></noscript> ` + g.tokK(KTitle, "title") + " " + g.tokK(KTitle, "title") + " " + g.tokK(KTitle, "title") + "</h1>\n")
+	}
 	n := g.r.Range(g.P.MinBlocks, g.P.MaxBlocks)
 	for i := 0; i < n; i++ {
 		g.block()
